@@ -62,7 +62,14 @@ def run_many(jobs, workers=16):
         j = dict(j)
         return box.run(j.pop("cut"), j.pop("tree"), j.pop("argv"), **j)
     with ThreadPoolExecutor(workers) as ex:
-        return list(ex.map(one, jobs))
+        res = list(ex.map(one, jobs))
+    # a run that hit its time limit while 16 others were running is repeated alone with three times the limit before it counts
+    # (a loaded machine must not look like a hang); at most 12 repeats per batch
+    redo = [i for i, r in enumerate(res) if getattr(r, "timeout", False)][:12]
+    for i in redo:
+        j = dict(jobs[i]); j["timeout"] = 3 * j.get("timeout", 8)
+        res[i] = one(j)
+    return res
 
 
 HUNK_RE = re.compile(rb"^Hunk #(\d+) (succeeded|FAILED|skipped) at (-?\d+)(?: with fuzz (\d+))?(?: \(offset (-?\d+) lines?\))?\.$")
